@@ -266,6 +266,22 @@ def c16_burst(rng, count):
     return out
 
 
+def c16_slow_consumer(rng, count):
+    """a destination that falls behind and then takes envelopes one at a time while its sender goes on sending: whatever
+    reaches it (the full queue may cost envelopes: known finding D11) reaches it in the order sent"""
+    out = []
+    for k in range(count):
+        ids = Ids()
+        steps = [attach('c1', 1), attach('s1', 2), fault('stuck', 2)]
+        steps += [w(ids, 1, 'c1', 's1', rep=rng.choice([16, 17, 18, 20])), Q]
+        for _ in range(rng.randint(3, 8)):
+            # the destination takes one (room for one in its queue), the sender sends one or two more
+            steps += [fault('pass', 2), Q, w(ids, 1, 'c1', 's1', rep=rng.choice([1, 1, 2])), Q]
+        steps += [fault('unstick', 2), Q, w(ids, 1, 'c1', 's1', rep=2), Q]
+        out.append(scen('C16', 'slow consumer: one out, some in #%d' % k, steps))
+    return out
+
+
 # ------------------------------------------------------------------ C16: RPC workloads
 
 def rpc_call(rng, c, cli, srv, kind, n, code=0):
@@ -429,10 +445,10 @@ def c16_rpc_reattach(rng, count):
 
 def generate_c16(tier, rng):
     if tier == 'quick':
-        s = c16_single(rng, 125) + c16_seq(rng, 145, 3, 2, 10) + c16_pairorder(rng, 30) + c16_dial(rng, 40) + c16_burst(rng, 30)
+        s = c16_single(rng, 125) + c16_seq(rng, 145, 3, 2, 10) + c16_pairorder(rng, 30) + c16_dial(rng, 40) + c16_burst(rng, 30) + c16_slow_consumer(rng, 16)
         s += c16_reattach(rng, 30) + c16_rpc(rng, 80, 3, 2) + c16_rpc_burst(rng, 12) + c16_rpc_reattach(rng, 8) + c16_attach_race(rng, 60) + c16_redial(rng, 8)
     else:
-        s = c16_single(rng, 100000) + c16_seq(rng, 6500, 8, 4, 24) + c16_pairorder(rng, 500) + c16_dial(rng, 800) + c16_burst(rng, 500)
+        s = c16_single(rng, 100000) + c16_seq(rng, 6500, 8, 4, 24) + c16_pairorder(rng, 500) + c16_dial(rng, 800) + c16_burst(rng, 500) + c16_slow_consumer(rng, 300)
         s += c16_reattach(rng, 600) + c16_rpc(rng, 1800, 8, 4) + c16_rpc_burst(rng, 100) + c16_rpc_reattach(rng, 100) + c16_attach_race(rng, 600) + c16_redial(rng, 80)
     return s
 
